@@ -4,7 +4,7 @@
    Spec:  coq/Spec/MergeSpec.v (join_pairs, gather_col, merge_spec), Spec/JoinSpec.v, Spec/MapStreamSpec.v. *)
 From Coq Require Import ZArith List Lia Bool.
 From EV Require Import Res Arr Join JoinSpec JoinBase JoinIface JoinDriver JoinMain MapStream MapStreamSpec
-  MapIndexedDriver Merge MergeSpec MergeBase MergeOrdered MergeMaps MergeTop MergeRefuted.
+  MapIndexedDriver Merge MergeSpec MergeBase MergeOrdered MergeMaps MergeTop MergeRows MergeRefuted.
 Import ListNotations.
 Open Scope Z_scope.
 
@@ -65,6 +65,33 @@ Example ordered_merge_both_unique_nonvacuous :
          ([105;97], CFix [0] [0] [[0];[20];[0];[30]]); ([120;97], CIdx [0;0;0;0;2] [99;99]);
          ([105;112], CFix [0] [0] [[1];[2];[3];[4]]) ].
 Proof. vm_compute. reflexivity. Qed.
+
+(* ---- the destination holds exactly the rows of the relational join: PARTIAL -----------------------
+   ordered_dest (what the streamed path produces, theorem above) = the two join-map fields followed by
+   merge_spec: every left column gathered through the left side of join_pairs and every right column
+   through its right side (None -> the type's empty value), names suffixed as documented, rows in the order
+   of join_pairs (left/inner: left row order, i.e. non-decreasing key order; right: right row order).
+   Proved for the variants that write both maps (no unique hint on the b side, and every how='inner').
+   Missing (hence _partial): when the b side is unique the a-side columns are copied (chunked_copy) instead of
+   mapped; that the copy equals gathering through [Some 0; ...; Some (n-1)] is left to the correspondence. *)
+Theorem streamed_rows_are_join_partial :
+  forall how lu ru lk rk lcols rcols lsuf rsuf,
+  let inv := merge_invalid lu ru (len lk) (len rk) in
+  how = 0 \/ how = 1 \/ how = 2 ->
+  v_writes_l (sel_variant how lu ru) = true ->
+  sorted lk -> sorted rk -> nbd (sel_a how lk rk) (sel_b how lk rk) ->
+  len lk <= inv -> len rk <= inv ->
+  idx_len_ok (len lk) lcols -> idx_len_ok (len rk) rcols ->
+  ordered_dest how lu ru lk rk lcols rcols lsuf rsuf
+  = map_fields (fst (jmaps how lu ru lk rk inv)) (snd (jmaps how lu ru lk rk inv)) ++
+    merge_spec how [lk] [rk] lcols rcols lsuf rsuf.
+Proof. exact ordered_dest_is_merge_spec. Qed.
+Print Assumptions streamed_rows_are_join_partial.
+
+Example streamed_rows_are_join_hyps :
+  v_writes_l (sel_variant 1 false true) = true /\ sortedb [1;2;2;4] = true /\ ssortedb [0;2;3;4] = true /\
+  len [1;2;2;4] <= merge_invalid false true 4 4.
+Proof. repeat split; vm_compute; congruence. Qed.
 
 (* ---- chunk sizes are unobservable on the streamed path (corollary; both-unique variants) -------- *)
 Theorem chunk_sizes_unobservable_both_unique :
